@@ -315,6 +315,7 @@ func (a *archetype) UpdateStats(node *stats.Node, stats *stats.Archetype, reg *c
 
 // copy from one pointer to another.
 func (a *archetype) copy(src, dst unsafe.Pointer, itemSize uint32) {
+	verifOnCopy(a, src, dst, itemSize)
 	dstSlice := (*[math.MaxInt32]byte)(dst)[:itemSize:itemSize]
 	srcSlice := (*[math.MaxInt32]byte)(src)[:itemSize:itemSize]
 	copy(dstSlice, srcSlice)
